@@ -452,3 +452,11 @@ func ruleNoDeadKindArm(c *Ctx, rule string) {
 	}
 	c.R.Floor(rule, "kind arms that refuse the instance with an error", n, 1)
 }
+
+func init() {
+	for _, pid := range []string{"C02", "C03", "C17"} {
+		pid := pid
+		Properties[pid].Rules = append(Properties[pid].Rules, Rule{pid + "/id-fragment-refused", func(c *Ctx) { ruleIDFragmentRefused(c, pid+"/id-fragment-refused") }})
+	}
+}
+
